@@ -230,6 +230,41 @@ pub mod proofs {
         kani::cover!(k_used == 2, "the second producer used all rounds");
     }
 
+    /// The same two producers on a channel that has already carried a value: a
+    /// sequential send + recv first (the slot it used has been recycled - whatever
+    /// the implementation does with recycled slots is in effect), then the two
+    /// overlapping sends.  Starts from `Channel::new()`: needs no state-construction
+    /// hook, so it also runs in the fallback build.
+    #[kani::proof]
+    #[kani::stub(core::hint::spin_loop, crate::common::spin_stub)]
+    #[kani::stub(alloc::alloc::dealloc_nonnull, noop_dealloc)]
+    #[kani::unwind(7)]
+    pub fn c07_lr_p2_after_recv_k3() {
+        let ch: Channel<Token> = Channel::new();
+        ch.send(Token(3));
+        let r = ch.recv();
+        let got3 = match r {
+            Some(ref t) => t.0 == 3,
+            None => false,
+        };
+        drop(r);
+        assert!(got3 && unsafe { T::drops[3] } == 1, "C07: a value sent and received sequentially was not handed over and dropped exactly once");
+        vshim::set_mode_lr(3, 1, 1);
+        vshim::hb_enable();
+        vshim::thread_start(0);
+        send(&ch, 1);
+        vshim::thread_start(1);
+        send(&ch, 2);
+        final_checks(2, 2);
+        let k_used = unsafe { T::send_end[2] / NT };
+        let overlapped = unsafe { T::send_start[2] < T::send_end[1] && T::send_start[1] < T::send_end[2] };
+        drop(ch);
+        drop_checks(2);
+        verdict();
+        kani::cover!(overlapped, "the two sends overlapped in time");
+        kani::cover!(k_used == 2, "the second producer used all rounds");
+    }
+
     /// 1 producer (2 sends), 1 consumer (2 recvs), K = 3.
     #[kani::proof]
     #[kani::stub(core::hint::spin_loop, crate::common::spin_stub)]
